@@ -1,0 +1,337 @@
+// Verification contracts (comment-only, compiled only with the "verif" build tag; read by /verif/govc).
+
+//go:build verif
+// +build verif
+
+package core
+
+// Contracts for gaspool.go, message_context.go, state_transition.go, state_processor.go — property C17:
+// "transactions are authentic, applied at most once, and charged exactly" (the accounting half; the signature half
+// is in core/types and crypto).
+
+// ---------------------------------------------------------------------------------------------------------------
+// Block gas pool: exact, never wraps.
+// ---------------------------------------------------------------------------------------------------------------
+
+//@ func (*GasPool).AddGas props C17
+//@ panics none
+//@ requires gp != nil && *gp + amount < 2^64
+//@ modifies *gp
+//@ ensures [exact] *gp == old(*gp) + amount && result == gp
+
+//@ func (*GasPool).SubGas props C17
+//@ panics none
+//@ requires gp != nil
+//@ modifies *gp
+//@ ensures [exact] old(*gp) >= amount ==> result == nil && *gp == old(*gp) - amount
+//@ ensures [exhausted] old(*gp) < amount ==> result == ErrGasLimitReached && *gp == old(*gp)
+
+// ---------------------------------------------------------------------------------------------------------------
+// Intrinsic gas: exact formula, no wrap-around.
+// ---------------------------------------------------------------------------------------------------------------
+
+// number of non-zero bytes among a[lo .. lo+n)
+//@ spec rec func c17nz(a: seq[byte], lo: int, n: int) int = if n <= 0 then 0 else c17nz(a, lo, n - 1) + (if a[lo + n - 1] != 0 then 1 else 0)
+
+// the intrinsic cost of a payload on top of a basic cost (mathematical integer, may exceed 2^64)
+//@ spec func c17Intrinsic(basic: int, data: []byte) int =
+//@     basic + params.TxDataNonZeroGas * c17nz(elems(data), off(data), len(data)) +
+//@     params.TxDataZeroGas * (len(data) - c17nz(elems(data), off(data), len(data)))
+
+//@ func IntrinsicGas props C17
+//@ panics none
+//@ overflow checked
+//@ modifies nothing
+//@ loop nz invariant [range] -1 <= rangeindex && rangeindex < len(data)
+//@ loop nz invariant [count] nz == c17nz(elems(data), off(data), rangeindex + 1)
+//@ loop nz invariant [bound] 0 <= nz && nz <= rangeindex + 1
+//@ loop nz decreases len(data) - rangeindex
+//@ ensures [exact] result1 == nil ==> result0 == c17Intrinsic(basicGas, data)
+//@ ensures [refuse-iff-above-uint64] (result1 != nil) == (c17Intrinsic(basicGas, data) >= 2^64)
+//@ ensures [refuse] result1 != nil ==> result1 == vm.ErrOutOfGas && result0 == 0
+//@ ensures [at-least-basic] result1 == nil ==> result0 >= basicGas
+
+// ---------------------------------------------------------------------------------------------------------------
+// Abstract world state and message (trusted model, see /verif/specs/stdlib/c17_statedb.spec)
+// ---------------------------------------------------------------------------------------------------------------
+
+//@ ghost var c17Bal: map[common.Address]int         // balance of every account of the world state
+//@ ghost var c17Nonce: map[common.Address]int       // nonce of every account
+//@ ghost var c17Refund: int                         // the EVM refund counter of the world state
+
+// A message is an immutable record: its getters are pure functions of the message value (types.Message returns fields).
+//@ spec func c17From(m: Message) common.Address
+//@ spec func c17To(m: Message) *common.Address
+//@ spec func c17Price(m: Message) *big.Int
+//@ spec func c17Gas(m: Message) int
+//@ spec func c17Value(m: Message) *big.Int
+//@ spec func c17MsgNonce(m: Message) int
+//@ spec func c17CheckNonce(m: Message) bool
+//@ spec func c17Data(m: Message) []byte
+//@ spec func c17TxHash(m: Message) common.Hash
+
+//@ func (Message).From props C17
+//@ trusted
+//@ pure
+//@ opt noalloc
+//@ ensures result == c17From(recv)
+
+//@ func (Message).To props C17
+//@ trusted
+//@ pure
+//@ opt noalloc
+//@ ensures result == c17To(recv)
+
+//@ func (Message).GasPrice props C17
+//@ trusted
+//@ pure
+//@ opt noalloc
+//@ ensures result == c17Price(recv)
+
+//@ func (Message).Gas props C17
+//@ trusted
+//@ pure
+//@ opt noalloc
+//@ ensures result == c17Gas(recv)
+
+//@ func (Message).Value props C17
+//@ trusted
+//@ pure
+//@ opt noalloc
+//@ ensures result == c17Value(recv)
+
+//@ func (Message).Nonce props C17
+//@ trusted
+//@ pure
+//@ opt noalloc
+//@ ensures result == c17MsgNonce(recv)
+
+//@ func (Message).CheckNonce props C17
+//@ trusted
+//@ pure
+//@ opt noalloc
+//@ ensures result == c17CheckNonce(recv)
+
+//@ func (Message).Data props C17
+//@ trusted
+//@ pure
+//@ opt noalloc
+//@ ensures result == c17Data(recv)
+
+//@ func (Message).TxHash props C17
+//@ trusted
+//@ pure
+//@ opt noalloc
+//@ ensures result == c17TxHash(recv)
+
+// ---------------------------------------------------------------------------------------------------------------
+// message_context.go: buying, using and refunding gas
+// ---------------------------------------------------------------------------------------------------------------
+
+// well-formed context: everything the accounting touches exists
+//@ spec func c17CtxOK(mc: *MessageContext) bool =
+//@     mc != nil && mc.Msg != nil && mc.State != nil && mc.GP != nil && c17Price(mc.Msg) != nil && allocated(c17Price(mc.Msg))
+
+//@ func (*MessageContext).buyGas props C17
+//@ panics none
+//@ requires c17CtxOK(mc)
+//@ let from = c17From(mc.Msg)
+//@ let gas = c17Gas(mc.Msg)
+//@ let cost = c17Gas(mc.Msg) * big(c17Price(mc.Msg))
+//@ modifies mc.AvailableGas, mc.InitialGas, *mc.GP, c17Bal
+//@ ensures [cannot-pay] old(c17Bal[from]) < cost ==> result == errInsufficientBalanceForGas
+//@ ensures [gas-exhausted] old(c17Bal[from]) >= cost && old(*mc.GP) < gas ==> result == ErrGasLimitReached
+//@ ensures [bought] old(c17Bal[from]) >= cost && old(*mc.GP) >= gas ==> result == nil &&
+//@     c17Bal == store(old(c17Bal), from, old(c17Bal[from]) - cost) && *mc.GP == old(*mc.GP) - gas &&
+//@     mc.AvailableGas == gas && mc.InitialGas == gas
+//@ ensures [refused-unchanged] result != nil ==> c17Bal == old(c17Bal) && *mc.GP == old(*mc.GP) &&
+//@     mc.AvailableGas == old(mc.AvailableGas) && mc.InitialGas == old(mc.InitialGas)
+
+// preCheck: the three up-front refusals of the statement (wrong nonce, cannot pay for its gas, block gas exhausted),
+// each decided from the entry state alone, and "refused changes nothing".
+//@ func (*MessageContext).preCheck props C17
+//@ panics none
+//@ requires c17CtxOK(mc)
+//@ let from = c17From(mc.Msg)
+//@ let gas = c17Gas(mc.Msg)
+//@ let cost = c17Gas(mc.Msg) * big(c17Price(mc.Msg))
+//@ let nonceOK = !c17CheckNonce(mc.Msg) || c17Nonce[c17From(mc.Msg)] == c17MsgNonce(mc.Msg)
+//@ modifies mc.AvailableGas, mc.InitialGas, *mc.GP, c17Bal
+//@ ensures [nonce-too-high] c17CheckNonce(mc.Msg) && old(c17Nonce[from]) < c17MsgNonce(mc.Msg) ==> result == ErrNonceTooHigh
+//@ ensures [nonce-too-low] c17CheckNonce(mc.Msg) && old(c17Nonce[from]) > c17MsgNonce(mc.Msg) ==> result == ErrNonceTooLow
+//@ ensures [cannot-pay] nonceOK && old(c17Bal[from]) < cost ==> result == errInsufficientBalanceForGas
+//@ ensures [gas-exhausted] nonceOK && old(c17Bal[from]) >= cost && old(*mc.GP) < gas ==> result == ErrGasLimitReached
+//@ ensures [accepted] nonceOK && old(c17Bal[from]) >= cost && old(*mc.GP) >= gas ==> result == nil &&
+//@     c17Bal == store(old(c17Bal), from, old(c17Bal[from]) - cost) && *mc.GP == old(*mc.GP) - gas &&
+//@     mc.AvailableGas == gas && mc.InitialGas == gas
+//@ ensures [refused-unchanged] result != nil ==> c17Bal == old(c17Bal) && *mc.GP == old(*mc.GP) &&
+//@     mc.AvailableGas == old(mc.AvailableGas) && mc.InitialGas == old(mc.InitialGas)
+
+//@ func (*MessageContext).UseGas props C17
+//@ panics none
+//@ requires mc != nil && mc.Msg != nil
+//@ modifies mc.AvailableGas
+//@ ensures [used] old(mc.AvailableGas) >= amount ==> result == nil && mc.AvailableGas == old(mc.AvailableGas) - amount
+//@ ensures [out-of-gas] old(mc.AvailableGas) < amount ==> result == vm.ErrOutOfGas && mc.AvailableGas == old(mc.AvailableGas)
+
+// GasUsed never wraps under the accounting invariant AvailableGas <= InitialGas.
+//@ func (*MessageContext).GasUsed props C17
+//@ panics none
+//@ overflow checked
+//@ requires mc != nil && mc.AvailableGas <= mc.InitialGas
+//@ pure
+//@ opt noalloc
+//@ ensures [exact] result == mc.InitialGas - mc.AvailableGas
+
+// refundGas: the EVM refund is capped to half of the gas used; the sender gets AvailableGas'·price back and the block
+// gas pool gets AvailableGas' back; nothing wraps and AddGas's panic is unreachable.
+//@ func (*MessageContext).refundGas props C17
+//@ panics none
+//@ overflow checked
+//@ requires c17CtxOK(mc) && mc.AvailableGas <= mc.InitialGas && *mc.GP + mc.InitialGas < 2^64
+//@ let from = c17From(mc.Msg)
+//@ let used = mc.InitialGas - mc.AvailableGas
+//@ let refund = min((mc.InitialGas - mc.AvailableGas) / 2, c17Refund)
+//@ modifies mc.AvailableGas, *mc.GP, c17Bal
+//@ ensures [refund-capped] mc.AvailableGas == old(mc.AvailableGas) + refund && 0 <= refund && 2 * refund <= used && mc.AvailableGas <= mc.InitialGas
+//@ ensures [sender-refunded] c17Bal == store(old(c17Bal), from, old(c17Bal[from]) + mc.AvailableGas * big(c17Price(mc.Msg)))
+//@ ensures [pool-returned] *mc.GP == old(*mc.GP) + mc.AvailableGas
+
+// ---------------------------------------------------------------------------------------------------------------
+// state_transition.go: the EVM converter
+// ---------------------------------------------------------------------------------------------------------------
+
+//@ func (*DefaultConverter).IntrinsicGas props C17
+//@ panics none
+//@ modifies nothing
+//@ let basic = if to == nil then params.TxGasContractCreation else params.TxGas
+//@ ensures [exact] result1 == nil ==> result0 == c17Intrinsic(basic, data)
+//@ ensures [refuse-iff-above-uint64] (result1 != nil) == (c17Intrinsic(basic, data) >= 2^64)
+
+// TransitionDb: the nonce goes up by exactly one on every accepted path (call: SetNonce here; creation: inside evm.Create),
+// gas only decreases, the block gas pool is not touched, and the only error is "cannot pay the value" with balances untouched.
+//@ func (*StateTransition).TransitionDb props C17
+//@ requires st != nil && c17CtxOK(st.MessageContext) && st.evm != nil && st.value != nil
+//@ requires st.evm.depth == 0 && st.evm.Context.Origin == c17From(st.MessageContext.Msg)
+//@ requires st.MessageContext.AvailableGas <= st.MessageContext.InitialGas
+//@ requires 0 <= c17Nonce[c17From(st.MessageContext.Msg)] && c17Nonce[c17From(st.MessageContext.Msg)] < 2^64 - 1     // a nonce is a uint64 and 2^64-1 transactions of one account are out of reach
+//@ let mc = st.MessageContext
+//@ let from = c17From(st.MessageContext.Msg)
+//@ modifies st.MessageContext.AvailableGas, c17Bal, c17Nonce, c17Refund
+//@ ensures [nonce-plus-one] err == nil ==> c17Nonce[from] == old(c17Nonce[from]) + 1
+//@ ensures [gas-only-decreases] mc.AvailableGas <= old(mc.AvailableGas)
+//@ ensures [used-gas] err == nil ==> usedGas == mc.InitialGas - mc.AvailableGas
+//@ ensures [only-error] err != nil ==> err == vm.ErrInsufficientBalance && c17Bal == old(c17Bal) && usedGas == 0 && !failed
+
+// DefaultConverter.ApplyMessage on the consensus path (no cancel context: only the local call API sets one; the goroutine and
+// the deferred ErrCancelled override of that mode are outside the model).
+//@ func (*DefaultConverter).ApplyMessage props C17
+//@ requires c17CtxOK(msgCtx) && msgCtx.Cfg != nil && !msgCtx.Cfg.isWithCancel && c17Value(msgCtx.Msg) != nil
+//@ requires msgCtx.Header != nil && msgCtx.Header.Number != nil
+//@ requires msgCtx.AvailableGas <= msgCtx.InitialGas
+//@ requires 0 <= c17Nonce[c17From(msgCtx.Msg)] && c17Nonce[c17From(msgCtx.Msg)] < 2^64 - 1
+//@ let from = c17From(msgCtx.Msg)
+//@ modifies msgCtx.AvailableGas, c17Bal, c17Nonce, c17Refund
+//@ ensures [nonce-plus-one] err == nil ==> c17Nonce[from] == old(c17Nonce[from]) + 1
+//@ ensures [gas-only-decreases] msgCtx.AvailableGas <= old(msgCtx.AvailableGas)
+//@ ensures [used-gas] err == nil ==> usedGas == msgCtx.InitialGas - msgCtx.AvailableGas
+//@ ensures [only-error] err != nil ==> err == vm.ErrInsufficientBalance && c17Bal == old(c17Bal)
+
+// ---------------------------------------------------------------------------------------------------------------
+// state_processor.go: the common entry
+// ---------------------------------------------------------------------------------------------------------------
+
+// What the entry relies on from any converter (interface level; the two implementations, DefaultConverter above and
+// staking.TxConverter in /repo/staking/verif_contracts_c17.go, are verified against these same clauses).
+//@ func (TxConverter).IntrinsicGas props C17
+//@ trusted
+//@ modifies nothing
+
+//@ func (TxConverter).ApplyMessage props C17
+//@ trusted
+//@ requires c17CtxOK(msgCtx) && msgCtx.AvailableGas <= msgCtx.InitialGas
+//@ requires 0 <= c17Nonce[c17From(msgCtx.Msg)] && c17Nonce[c17From(msgCtx.Msg)] < 2^64 - 1
+//@ modifies msgCtx.AvailableGas, c17Bal, c17Nonce, c17Refund
+//@ ensures result3 == nil ==> c17Nonce[c17From(msgCtx.Msg)] == old(c17Nonce[c17From(msgCtx.Msg)]) + 1
+//@ ensures msgCtx.AvailableGas <= old(msgCtx.AvailableGas)
+// the gas figure a converter reports is the gas used so far (staking: since YouV4, which fixed exactly that for failed staking transactions)
+//@ ensures result3 == nil && msgCtx.Cfg != nil && msgCtx.Cfg.CurrYouParams != nil && msgCtx.Cfg.CurrYouParams.Version >= params.YouV4 ==>
+//@     result1 == msgCtx.InitialGas - msgCtx.AvailableGas
+
+// Ghost observations of one application (set at anchored program points of ApplyMessageEntry):
+//@ ghost var c17Intr: int          // the intrinsic gas the converter asked for
+//@ ghost var c17SnapA: int         // sender balance just before the converter runs
+//@ ghost var c17ConvDelta: int     // change of the sender balance made by the converter (value transferred / staked; EVM: per C16)
+//@ ghost var c17UsedPre: int       // gas used at the pre-refund point (InitialGas - AvailableGas before refundGas)
+//@ ghost var c17Charged: int       // gas finally charged (InitialGas - AvailableGas after refundGas)
+
+//@ func (*StateProcessor).ApplyMessageEntry props C17
+//@ requires p != nil && msg != nil && statedb != nil && gp != nil && header != nil
+//@ requires c17Price(msg) != nil && allocated(c17Price(msg))
+//@ requires 0 <= c17Nonce[c17From(msg)] && c17Nonce[c17From(msg)] < 2^64 - 1
+//@ let from = c17From(msg)
+//@ let gas = c17Gas(msg)
+//@ let price = big(c17Price(msg))
+//@ let cost = c17Gas(msg) * big(c17Price(msg))
+//@ let nonceOK = !c17CheckNonce(msg) || c17Nonce[c17From(msg)] == c17MsgNonce(msg)
+//@ ghost after call (TxConverter).IntrinsicGas: c17Intr := ret0
+//@ ghost before call (TxConverter).ApplyMessage: c17SnapA := c17Bal[c17From(msg)]
+//@ ghost after call (TxConverter).ApplyMessage: c17ConvDelta := c17Bal[c17From(msg)] - c17SnapA
+//@ ghost before call (*MessageContext).refundGas: c17UsedPre := msgCtx.InitialGas - msgCtx.AvailableGas
+//@ ghost after call (*MessageContext).refundGas: c17Charged := msgCtx.InitialGas - msgCtx.AvailableGas
+//@ modifies *gp, c17Bal, c17Nonce, c17Refund, c17Intr, c17SnapA, c17ConvDelta, c17UsedPre, c17Charged
+// "a transaction refused up front (wrong nonce, cannot pay for its gas, block gas exhausted) changes nothing":
+//@ ensures [refused-wrong-nonce] !nonceOK ==> result3 != nil &&
+//@     c17Bal == old(c17Bal) && c17Nonce == old(c17Nonce) && c17Refund == old(c17Refund) && *gp == old(*gp)
+//@ ensures [refused-cannot-pay] old(c17Bal[from]) < cost ==> result3 != nil &&
+//@     c17Bal == old(c17Bal) && c17Nonce == old(c17Nonce) && c17Refund == old(c17Refund) && *gp == old(*gp)
+//@ ensures [refused-gas-exhausted] old(*gp) < gas ==> result3 != nil &&
+//@     c17Bal == old(c17Bal) && c17Nonce == old(c17Nonce) && c17Refund == old(c17Refund) && *gp == old(*gp)
+// "an applied transaction requires the account's next nonce and sufficient funds, raises the nonce by one":
+//@ ensures [applied-requires] result3 == nil ==> nonceOK && old(c17Bal[from]) >= cost && old(*gp) >= gas
+//@ ensures [nonce-plus-one] result3 == nil ==> c17Nonce[from] == old(c17Nonce[from]) + 1
+// "… and changes the sender's balance by exactly the value it transfers or stakes plus gas used times price":
+//@ ensures [charged-exactly] result3 == nil ==> c17Bal[from] == old(c17Bal[from]) - c17Charged * price + c17ConvDelta
+//@ ensures [pool-exact] result3 == nil ==> *gp == old(*gp) - c17Charged
+// "… with gas used between the intrinsic cost and the limit" (decided at the pre-refund point; the refund is at most half):
+//@ ensures [gas-bounds] result3 == nil ==> c17Intr <= c17UsedPre && c17UsedPre <= gas &&
+//@     0 <= c17UsedPre - c17Charged && 2 * (c17UsedPre - c17Charged) <= c17UsedPre
+//@ ensures [reported-gas-is-pre-refund] result3 == nil && cfg != nil && cfg.CurrYouParams != nil && cfg.CurrYouParams.Version >= params.YouV4 ==> result1 == c17UsedPre
+// The gas figure RETURNED (it goes into the receipt, header.GasUsed and, times price, header.GasRewards) must be the gas charged.
+// The real code returns the pre-refund figure: the clause fails whenever the refund is non-zero (and for failed staking
+// transactions before YouV4). Demonstrated by /verif/proposed_fixes/C17/refund_gas_probe_test.go; proposal:
+// /verif/findings_proposed/C17.json (recommended) or /verif/proposed_fixes/C17/report_charged_gas.diff.
+//@ ensures [reported-gas-is-charged-gas] result3 == nil ==> result1 == c17Charged
+// What does hold: the two figures agree when nothing was refunded.
+//@ ensures [reported-gas-is-charged-gas-without-refund] result3 == nil && c17UsedPre == c17Charged &&
+//@     cfg != nil && cfg.CurrYouParams != nil && cfg.CurrYouParams.Version >= params.YouV4 ==> result1 == c17Charged
+
+// ---------------------------------------------------------------------------------------------------------------
+// ApplyTransaction: the block-level accumulators
+// ---------------------------------------------------------------------------------------------------------------
+
+//@ func (*StateProcessor).ApplyTransaction props C17
+//@ requires p != nil && tx != nil && tx.data.Price != nil && statedb != nil && gp != nil && header != nil && signer != nil
+//@ requires usedGas != nil && gasRewards != nil && usedGas != gp && gasRewards != tx.data.Price
+//@ requires forall a: common.Address :: 0 <= c17Nonce[a] && c17Nonce[a] < 2^64 - 1
+// types.Message's getters return its fields (core/types/transaction.go:407-415): the interface-level model functions agree with them.
+//@ assume [types-message-getters] forall m: types.Message :: { box(m) } c17Price(box(m)) == m.gasPrice && c17Gas(box(m)) == m.gasLimit &&
+//@     c17From(box(m)) == m.from && c17MsgNonce(box(m)) == m.nonce && c17CheckNonce(box(m)) == m.checkNonce
+//@ modifies *usedGas, big(gasRewards), *gp, tx.from, tx.hash, c17Bal, c17Nonce, c17Refund, c17Intr, c17SnapA, c17ConvDelta, c17UsedPre, c17Charged
+//@ ensures [error-leaves-block-accounting] result2 != nil ==> *usedGas == old(*usedGas) && big(gasRewards) == old(big(gasRewards)) && result0 == nil && result1 == 0
+//@ ensures [accumulates] result2 == nil ==> *usedGas == wrap64(old(*usedGas) + result1) &&
+//@     big(gasRewards) == old(big(gasRewards)) + old(big(tx.data.Price)) * result1 &&
+//@     result0 != nil && result0.GasUsed == result1 && result0.CumulativeGasUsed == *usedGas
+//@ ensures [refund-counter-cleared] result2 == nil ==> c17Refund == 0
+//@ ensures [pool-exact] result2 == nil ==> *gp == old(*gp) - c17Charged && 0 <= c17Charged && c17Charged <= old(*gp)
+// Block level form of the finding on ApplyMessageEntry (same proposal): the rewards added must be what the sender was charged for gas.
+//@ ensures [rewards-equal-fees-paid] result2 == nil ==> big(gasRewards) == old(big(gasRewards)) + old(big(tx.data.Price)) * c17Charged
+
+// Converter dispatch: creation goes to the EVM converter, a registered module address to its converter, everything else to the EVM converter.
+//@ func (*StateProcessor).GetConverter props C17
+//@ panics none
+//@ requires p != nil
+//@ modifies nothing
+//@ ensures [creation] msgToAddr == nil ==> result == p.defaultConverter
+//@ ensures [module] msgToAddr != nil && in(*msgToAddr, p.txConverters) ==> result == p.txConverters[*msgToAddr]
+//@ ensures [default] msgToAddr != nil && !in(*msgToAddr, p.txConverters) ==> result == p.defaultConverter
